@@ -26,7 +26,7 @@ use gv_harness::*;
 #[derive(Default)]
 struct Rec(Vec<String>);
 impl Rec {
-    fn other(&mut self, w: u32, v: i128) {
+    fn other(&mut self, w: i32, v: i128) {
         self.0.push(format!("HOther {} {}", w, coq::z(v)));
     }
 }
@@ -238,7 +238,7 @@ const I64_BOUND: [i64; 24] = [
     i64::MIN,
     i64::MIN + 1,
     ONE_BITS as i64,         // the integer whose bits are those of 1.0 (DISTINCT / GROUP BY keys)
-    (1 << 63) as i64 | 0,    // == i64::MIN, bits of -0.0
+    -250,
     i64::MAX - 511,          // rounds up to 2^63 as f64
     i64::MAX - 512,          // tie: rounds to even
     1 << 62,
@@ -1117,6 +1117,29 @@ fn case_rowkey(a: &Value, b: &Value, out: &mut Out, only_if_interesting: bool) {
     }
     out.emit(&c);
 }
+fn case_groupkey(v: &Value, out: &mut Out) {
+    // GROUP BY over a single row: the key column of the result must be the key that went in
+    let g = group_by(&[v.clone()]);
+    let ret = g.first().map(|(k, _)| k.clone()).unwrap_or(Value::Null);
+    let ok = g.len() == 1 && bits_eq(&ret, v) && g[0].1 == 1;
+    let mut c = Case {
+        kind: "groupkey".into(),
+        input: format!("{:?}", v),
+        coq: Some(format!("chk_groupkey {} {}", cv(v), cv(&ret))),
+        oracle: Oracle::Ok,
+        nontrivial: nontrivial_value(v),
+        imp: format!("{:?}", g),
+        tags: vec![format!("groupkey:{}", variant(v))],
+        ..Default::default()
+    };
+    if !ok {
+        c.oracle = Oracle::Fail;
+        c.msg = format!("GROUP BY returns the key {:?} for the input key {:?}", ret, v);
+        c.kid = Some("C16-K3".into());
+        c.kcoq = Some(format!("k_groupkey {}", cv(v)));
+    }
+    out.emit(&c);
+}
 fn case_hash_index(vals: &[Value], out: &mut Out) {
     // HashIndex keyed by HashableValue: one entry per bit-level class, every value is found,
     // and it maps to the last inserted member of its class
@@ -1152,6 +1175,59 @@ fn case_hash_index(vals: &[Value], out: &mut Out) {
         imp: format!("len={} classes={}", idx.len(), classes.len()),
         ..Default::default()
     });
+}
+
+/// the WAL's own use of bincode: log SetNodeProperty records through WalManager, read the file
+/// back frame by frame (payload compared with the model), and recover them with WalRecovery
+fn cases_wal(vals: &[Value], out: &mut Out) {
+    use grafeo_adapters::storage::wal::{WalManager, WalRecord, WalRecovery};
+    use grafeo_common::types::TxId;
+    let dir = std::path::PathBuf::from(format!("scratch/c16_wal_{}", std::process::id()));
+    let _ = std::fs::remove_dir_all(&dir);
+    std::fs::create_dir_all(&dir).expect("scratch dir");
+    {
+        let wal = WalManager::open(&dir).expect("wal open");
+        for (i, v) in vals.iter().enumerate() {
+            wal.log(&WalRecord::SetNodeProperty { id: NodeId::new(i as u64 * 97), key: format!("k{}é", i), value: v.clone() }).expect("wal log");
+        }
+        wal.log(&WalRecord::TxCommit { tx_id: TxId(7) }).expect("wal commit");
+        wal.sync().expect("wal sync");
+    }
+    let mut files: Vec<_> = std::fs::read_dir(&dir).unwrap().flatten().map(|e| e.path()).filter(|p| p.extension().is_some_and(|x| x == "log")).collect();
+    files.sort();
+    let mut raw = Vec::new();
+    for f in &files {
+        raw.extend(std::fs::read(f).unwrap());
+    }
+    let recovered = WalRecovery::new(&dir).recover().unwrap_or_default();
+    let mut pos = 0usize;
+    for (i, v) in vals.iter().enumerate() {
+        let mut payload = Vec::new();
+        let mut frame_ok = false;
+        if pos + 4 <= raw.len() {
+            let len = u32::from_le_bytes(raw[pos..pos + 4].try_into().unwrap()) as usize;
+            if pos + 4 + len + 4 <= raw.len() {
+                payload = raw[pos + 4..pos + 4 + len].to_vec();
+                let crc = u32::from_le_bytes(raw[pos + 4 + len..pos + 8 + len].try_into().unwrap());
+                frame_ok = crc == crc32fast::hash(&payload);
+                pos += 8 + len;
+            }
+        }
+        let rec_ok = matches!(recovered.get(i), Some(WalRecord::SetNodeProperty { id, key, value }) if *id == NodeId::new(i as u64 * 97) && *key == format!("k{}é", i) && bits_eq(value, v));
+        let ok = frame_ok && rec_ok;
+        out.emit(&Case {
+            kind: "wal_value".into(),
+            input: format!("{:?}", v),
+            coq: Some(format!("chk_wal_setprop {} {} {} {}", coq::zu(i as u64 * 97), coq::bytes(format!("k{}é", i).as_bytes()), cv(v), coq::bytes(&payload))),
+            oracle: if ok { Oracle::Ok } else { Oracle::Fail },
+            msg: if ok { String::new() } else { format!("WAL frame/recovery of a SetNodeProperty record loses the value (frame_ok={} recovered_ok={})", frame_ok, rec_ok) },
+            nontrivial: nontrivial_value(v),
+            imp: format!("{} payload bytes", payload.len()),
+            tags: vtags(v, "wal"),
+            ..Default::default()
+        });
+    }
+    let _ = std::fs::remove_dir_all(&dir);
 }
 
 fn main() {
@@ -1208,6 +1284,7 @@ fn main() {
     // ---- every pool value, all unordered pairs (both directions are observed in one case)
     for v in &pool {
         case_value(v, "pool", &mut out);
+        case_groupkey(v, &mut out);
     }
     for i in 0..pool.len() {
         for j in i..pool.len() {
@@ -1216,6 +1293,7 @@ fn main() {
         }
     }
     case_hash_index(&pool, &mut out);
+    cases_wal(&pool, &mut out);
 
     // ---- triples: all triples of the numeric boundary set, a sample of the orderable pool
     let opool: Vec<OrderableValue> = pool.iter().filter_map(OrderableValue::try_from).collect();
@@ -1274,7 +1352,10 @@ fn main() {
     for i in 0..a.cases {
         let v = gen_value(&mut r, 4);
         match i % 4 {
-            0 => case_value(&v, "generated", &mut out),
+            0 => {
+                case_value(&v, "generated", &mut out);
+                case_groupkey(&gen_scalar(&mut r), &mut out);
+            }
             1 => {
                 let m = mutate_value(&mut r, &v);
                 case_pair(&v, &m, "near-equal", &mut out);
